@@ -69,7 +69,11 @@ def real_kernels(cfg):
 
     ks = [gs.RWKernel(["a"], initial_step_size=cfg["rw_step"]),
           gs.IWLSKernel(["b"], initial_step_size=cfg["iwls_step"])]
-    if cfg["nuts"]:
+    if cfg["nuts"] and cfg.get("auto_step"):
+        # default initial step size: searched from the chain's own initial position when the kernel state is initialised
+        ks.append(gs.NUTSKernel(["c"], max_treedepth=3) if cfg["auto_step"] == "nuts" else
+                  gs.HMCKernel(["c"], num_integration_steps=3))
+    elif cfg["nuts"]:
         ks.append(gs.NUTSKernel(["c"], initial_step_size=0.3, max_treedepth=3))
     else:
         ks.append(gs.RWKernel(["c"], initial_step_size=0.5))
@@ -83,7 +87,8 @@ def init_state(rng=None, offset=0.0):
             "c": jnp.asarray([1.0, 2.0, 3.0], jnp.float32) * 0.1 + offset}
 
 
-def run_builder(cfg, seed, states=None, multi=False, jitter=None, show=False, second_build=False, engine_seed=None):
+def run_builder(cfg, seed, states=None, multi=False, jitter=None, show=False, second_build=False, engine_seed=None,
+                jitter_reset=None):
     import liesel.goose as gs
 
     b = gs.EngineBuilder(seed=seed, num_chains=cfg["chains"])
@@ -101,6 +106,12 @@ def run_builder(cfg, seed, states=None, multi=False, jitter=None, show=False, se
     b.set_epochs(mk_epochs(cfg["spec"]))
     if jitter is not None:
         b.set_jitter_fns(jitter)
+    if jitter_reset is not None:
+        # jitter configured and then switched off again
+        import jax
+
+        b.set_jitter_fns({"a": lambda key, v: v + 5.0 + jax.random.normal(key, v.shape)})
+        b.set_jitter_fns(jitter_reset[0])
     eng = b.build()
     eng.sample_all_epochs()
     if second_build:
@@ -130,7 +141,8 @@ def case_repro(case, res):
     res.check(ok, "int_seed_equals_key", "int-seed-vs-key",
               f"seed={s} and PRNGKey({s}) give different results: {why}", case)
     same, _ = leaves_equal(r1["pos"], r4["pos"])
-    if same:
+    moved = any(np.any(np.asarray(v) != np.asarray(v)[:, :1]) for v in r1["pos"].values())
+    if same and moved:
         res.violation("seed-ignored", f"seeds {s} and {s + 1} give identical chains", case)
     # engine seed given as int, as key, and as per-chain key array (the split the builder itself would make)
     with liesel_call(res, "set_engine_seed variants", case):
@@ -148,8 +160,22 @@ def case_repro(case, res):
     if cfg["chains"] >= 2 and a.shape[1] > 3:
         for i in range(cfg["chains"]):
             for j in range(i + 1, cfg["chains"]):
-                if np.array_equal(a[i], a[j]):
-                    res.violation("chains-identical", f"chains {i} and {j} have identical trajectories", case)
+                # (two chains that both rejected every proposal are identical by chance, not by shared keys: demand movement)
+                if np.array_equal(a[i], a[j]) and np.any(a[i] != a[i][0]):
+                    res.violation("chains-identical", f"chains {i} and {j} have identical (non-constant) trajectories", case)
+                elif np.array_equal(a[i], a[j]):
+                    res.skip("two chains that never moved")
+    # jitter functions set and then reset (None or {}): exactly the run without jitter
+    with liesel_call(res, "set_jitter_fns reset", case):
+        import warnings
+
+        with warnings.catch_warnings():
+            warnings.simplefilter("ignore")
+            r5 = simple_tree(run_builder(cfg, s, jitter_reset=[None if case["idx"] % 2 else {}]))
+        ok, why = leaves_equal(r1["pos"], r5["pos"])
+        res.check(ok, "jitter_reset_means_no_jitter", "jitter-not-reset",
+                  f"set_jitter_fns(fns) followed by set_jitter_fns({'None' if case['idx'] % 2 else '{}'}) does not give the run "
+                  f"without jitter: {why}; first sample of a: {np.asarray(r5['pos']['a'])[:, 0].tolist()}", case)
     # no jitter configured: first stored sample = supplied initial value
     st = init_state()
     for k in ("a", "b", "c"):
@@ -401,8 +427,11 @@ def gen_cases(tier, seed):
         cases.append(c)
     for i in range(10 if q else 80):
         rng = rng_for(seed, "c10-iso", i)
-        cfg = gen_cfg(rng, nuts_ok=(i % 4 == 0))
+        cfg = gen_cfg(rng, nuts_ok=(i % 2 == 0))
         cfg["chains"] = int(rng.integers(2, 5))
+        if i % 2 == 0:
+            cfg["nuts"] = True
+            cfg["auto_step"] = ["nuts", "hmc"][(i // 2) % 2]
         cases.append({"kind": "isolation", "idx": i, "cfg": cfg, "engine_seed": int(rng.integers(0, 2 ** 30)),
                       "perturb_chain": int(rng.integers(cfg["chains"])), "delta": float(rng.choice([0.5, -1.0, 3.0])), "cost": 10})
     for i in range(12 if q else 100):
